@@ -10,6 +10,10 @@ func deriveRFC4226(secret []byte, counter uint64, digits int, algo Algorithm) (s
 		return "", ErrUnsupportedAlgorithm
 	}
 
+	if digits < 1 || digits >= len(mod10) {
+		return "", ErrInvalidCodeLength
+	}
+
 	hp := &hmacPools[algo]
 	buf := rfc4226BufPool.Get().(*[8]byte)
 	binary.BigEndian.PutUint64(buf[:], counter)
